@@ -50,6 +50,7 @@ pub fn run_ops_scalar(scalar: &str, spec: &Spec, ops: &[Op]) -> Vec<String> {
     match scalar {
         "f32" => run_ops::<f32>(spec, ops),
         "Q" => run_ops::<Q>(spec, ops),
+        s if s.starts_with("Lo") => run_ops::<crate::lo::Lo>(spec, ops),
         _ => run_ops::<f64>(spec, ops),
     }
 }
